@@ -66,18 +66,28 @@ class Frames(Sub):
     rule = RULE
 
     def strategy(self, tier):
-        subid = st.one_of(anytext, anytext, st.none(), st.booleans(), st.integers(-2**63, 2**64),
+        longid = st.sampled_from([64, 65, 136, 1000]).flatmap(lambda n: st.sampled_from(["x" * n, "é" * n, ("ab" * n)[:n - 1] + '"']))
+        subid = st.one_of(anytext, anytext, longid, st.none(), st.booleans(), st.integers(-2**63, 2**64),
                           st.floats(allow_nan=False, allow_infinity=False), st.lists(st.integers(0, 3), max_size=2),
                           st.dictionaries(st.text(max_size=2), st.integers(0, 3), max_size=1))
+        # fourth element: "id" values of EVENT submissions that get refused (the OK frame still has to be [OK, str, bool, str])
+        badid = st.one_of(st.integers(-5, 2**70), st.booleans(), st.none(), st.floats(allow_nan=False, allow_infinity=False),
+                          st.lists(st.integers(0, 3), max_size=2), st.dictionaries(st.text(max_size=2), st.integers(0, 3), max_size=1),
+                          anytext, st.just("ab" * 32))
         return st.tuples(st.sampled_from(["kv", "sql"]), st.lists(subid, min_size=1, max_size=3),
+                         st.booleans(), st.lists(badid, max_size=3),
+                         # fifth element: the refused submissions run into a configured rate limit as well
                          st.booleans()).map(list)
 
     def run_case(self, case):
         return H.run(self._run, case)
 
     async def _run(self, case):
-        backend, subids, close = case
+        backend, subids, close = case[:3]
+        badids = case[3] if len(case) > 3 else []
+        limited = case[4] if len(case) > 4 else False
         viol = []
+        labels = ["backend:" + backend] + (["rate-limited-refusals"] if limited and badids else [])
         async with H.Rig(backend) as rig:
             ev = E.make(0, 1, E.T0, [["t", "a"]], 'c"\\')
             await rig.add(ev)
@@ -91,6 +101,20 @@ class Frames(Sub):
                 await c.send(["REQ", sid, {"kinds": [1]}])
             live = E.make(1, 1, E.T0 + 1, [], "live")
             await c.send(["EVENT", live])
+            for j, bid in enumerate(badids):
+                # one connection per refused submission (a refusal slows its connection down)
+                rl = None
+                if limited:
+                    from nostr_relay.rate_limiter import RateLimiter
+
+                    rl = RateLimiter({"ip": {"EVENT": "1/h"}})
+                c2 = rig.conn("10.9.0.%d" % j, rate_limiter=rl)
+                refused = dict(E.make(2, 1, E.T0 + 5 + j, [], "refused %d" % j), id=bid)
+                for _ in range(2 if limited else 1):   # the second copy is turned away by the limiter
+                    for raw in await c2.send(["EVENT", refused]):
+                        check_frame(raw, viol)   # shape only: which id an OK for a refused submission names is not specified
+                if not c2.task.done():
+                    await c2.disconnect()
             if close:
                 for sid in subids:
                     await c.send(["CLOSE", sid])
@@ -107,7 +131,7 @@ class Frames(Sub):
                                       sub_id=s, eose=sorted(got_eose)))
             await c.disconnect()
         nt = any(needs_escape(s) or not isinstance(s, str) for s in subids)
-        return Result(viol, nt, ["backend:" + backend])
+        return Result(viol, nt, labels)
 
 
 # ------------------------------------------------------------------ verbatim
